@@ -265,13 +265,13 @@ Qed.
 Definition lock_refusal : M bool :=
   fun h => match h_cuser h with
            | Some u => (log [u_pid u; q_path (e_req E)] ;;;
-                        try (redirect E (ro_fail (p_lock_notok_of cfg))) (fun _ => ret tt) ;;; ret false) h
+                        try (redirect E (ro_fail (p_lock_notok_of cfg))) (fun r => match r with Ok _ => ret tt | _ => log [] end) ;;; ret false) h
            | None => (Panic, h)
            end.
 Definition confirm_refusal : M bool :=
   fun h => match h_cuser h with
            | Some u => (log [u_pid u; q_path (e_req E)] ;;;
-                        try (redirect E (ro_fail (p_confirm_notok_of cfg))) (fun _ => ret tt) ;;; ret false) h
+                        try (redirect E (ro_fail (p_confirm_notok_of cfg))) (fun r => match r with Ok _ => ret tt | _ => log [] end) ;;; ret false) h
            | None => (Panic, h)
            end.
 
@@ -292,14 +292,15 @@ Qed.
 
 (* the refusal of either middleware: one log line, then the failure redirect to the configured
    path; storage, cookies and the context are left alone; only the API-mode renderer fault can
-   keep the redirect from being written (the middleware swallows that error) *)
+   keep the redirect from being written (the middleware swallows that error, logging one more
+   line without arguments) *)
 Definition refusal_tail : list csevent := if c_api cfg then [] else [Put k_flash_err v_flash].
 Definition refusal_redirect (p : bytes) : response :=
   if c_api cfg then RespRedirectAPI 307 p true else RespRedirect302 p.
 
 Lemma mw_refusal_shape (args : list bytes) (p : bytes) h r h' :
   h_out h = None ->
-  (log args ;;; try (redirect E (ro_fail p)) (fun _ => ret tt) ;;; ret false) h = (r, h') ->
+  (log args ;;; try (redirect E (ro_fail p)) (fun r => match r with Ok _ => ret tt | _ => log [] end) ;;; ret false) h = (r, h') ->
   r = Ok false /\ h_st h' = h_st h /\ h_cev h' = h_cev h /\ h_cuser h' = h_cuser h /\ h_cpid h' = h_cpid h /\
   h_mails h' = h_mails h /\
   ((h_sev h' = h_sev h ++ refusal_tail /\
@@ -318,8 +319,12 @@ Proof.
         destruct Rd as (_ & _ & _ & _ & [(Hx & _)|((e' & Hx) & _)]); discriminate Hx].
   inversion E3; subst r h'. clear E3.
   apply try_inv in E2 as [(x & h3 & Rd & _ & K)|(Rd & Hr)]; [|discriminate Hr].
-  assert (h3 = h2) as -> by (destruct x; inversion K; reflexivity). clear K.
-  assert (M2 : h_mails h2 = h_mails h1).
+  (* the continuation of the failed redirect appends at most a log line: every field read below is kept *)
+  assert (K' : h_out h2 = h_out h3 /\ h_sev h2 = h_sev h3 /\ h_cev h2 = h_cev h3 /\ h_st h2 = h_st h3 /\
+               h_cuser h2 = h_cuser h3 /\ h_cpid h2 = h_cpid h3 /\ h_mails h2 = h_mails h3)
+    by (destruct x; inversion K; cbn; auto 10).
+  clear K. destruct K' as (K1 & K2 & K3 & K4 & K5 & K6 & K7).
+  assert (M2 : h_mails h3 = h_mails h1).
   { assert (G : rl (Rk h_mails) (redirect E (ro_fail p))) by (rl_go; rk_side). exact (G _ _ _ Rd). }
   apply redirect_unwritten in Rd; [|congruence]. cbv zeta in Rd.
   cbn [ro_fail ro_success ro_failure ro_path ro_follow] in Rd. rewrite redirect_target_nofollow in Rd.
@@ -327,7 +332,7 @@ Proof.
   split; [reflexivity|]. repeat (split; [congruence|]).
   unfold refusal_tail, refusal_redirect.
   destruct Rd as [(_ & S2 & O2)|(_ & Api & O2 & S2 & Hf)].
-  - left. rewrite S2, O2, L2, L3. destruct (c_api cfg); split; reflexivity.
+  - left. rewrite K2, K1, S2, O2, L2, L3. destruct (c_api cfg); split; reflexivity.
   - right. repeat split; auto; congruence.
 Qed.
 
